@@ -168,4 +168,13 @@ CHECKS = {
                       "each waiter's outcome, resolution time and the connection state are compared with a sequential FIFO "
                       "model evaluated on observed delivery times"),
                 note=SIM_NOTE + "; hand-packed response bytes; a truncated reply to an already abandoned request is not counted as a malformed frame"),
+    "C19": dict(ready=True, engine="simcluster", level="fault_enumeration", design_ref="DESIGN.md §6 C19",
+                technique="runtime monitoring: stop() injected at sampled loop events of producer / group-consumer / group-less "
+                          "consumer runs; virtual duration bound, ownership-tagged leftover scan (tasks, timer handles, "
+                          "transports) on the simulation loop, post-stop API probes, LeaveGroup in the coordinator log",
+                text=("3 workloads x 5 cluster states (healthy, broker refusing, black-holing, failover, unreachable then "
+                      "restored) x stop() at event k for sampled k over the whole reference run (quick 5, thorough 40 points per "
+                      "reference, 64 / 576 references) with requests in flight, blocked getmany(), mid-rebalance second member, "
+                      "fault fates on every request"),
+                note=SIM_NOTE + "; B_stop = 4 x (request + session + rebalance timeout) + 40 x backoff, runs continued to 10 x B"),
 }
